@@ -37,7 +37,7 @@ def consts_for_tlc(c):
         RegCalls=[dict(v=x["v"], t=x.get("t", -1), e=bool(x.get("e")), clash=bool(x.get("clash"))) for x in c.get("reg_calls", [])],
         WLevels=set(c.get("wlevels", [])),
         # harness/rec.go: writer id w is LevelSettable iff (w-1) % 4 in {2, 3}
-        WantsLevel=set(c.get("wants_level", [w for w in range(1, 33) if (w - 1) % 4 in (2, 3)])),
+        WantsLevel=set(c.get("wants_level", [w for w in range(1, 33) if (w - 1) % 4 in (2, 3)] + [49, 51])),
         Acts=set(c["acts"]),
         FailSets=[set(tuple(x) for x in fs) for fs in c.get("fail_sets", [[]])],
         LogSevs=set(c.get("log_sevs", [])),
@@ -194,7 +194,8 @@ def random_behaviours(c, rng, count, depth, max_loggers):
                     beh.append(dict(op="LogA", l=l, k=ep, a=r_, b=0, mc="plain",
                                     args=[rng.choice(sorted(c["tokens"])) for _ in range(n_)]))
             elif op == "LogF":
-                beh.append(dict(op="LogF", l=l, k="", a=rng.choice(sorted(c["log_sevs"])),
+                # (every tenth record is bigger than any buffer or chunk size the library might use: 100 KiB)
+                beh.append(dict(op="LogF", l=l, k="big" if rng.random() < 0.1 else "", a=rng.choice(sorted(c["log_sevs"])),
                                 b=rng.randint(1, len(c["fail_sets"]))))
             elif op == "CloseW":
                 beh.append(dict(op="CloseW", l=l, k="", a=rng.choice(sorted(c["log_sevs"])), b=0))
